@@ -77,10 +77,16 @@ public:
     }
 
     static void invoke_epoch_thread() {
+        // the flag may still be raised by a previous fin()
+        kEpochThreadEnd.store(false, std::memory_order_release);
         kEpochThread = std::thread(epoch_thread);
     }
 
-    static void invoke_gc_thread() { kGCThread = std::thread(gc_thread); }
+    static void invoke_gc_thread() {
+        // the flag may still be raised by a previous fin()
+        kGCThreadEnd.store(false, std::memory_order_release);
+        kGCThread = std::thread(gc_thread);
+    }
 
     static void join_epoch_thread() { kEpochThread.join(); }
 
